@@ -71,6 +71,7 @@ fn main() {
         "C16N" => c16::run_nesting(shard),
         "C19" => c19::run(seed, &tier, shard, nshards),
         "C20" => c20::run(seed, &tier, shard),
+        "C01" | "C02" | "C08" => e1::run(&check, seed, &tier, shard, atom.as_deref()),
         "C12" => {
             if shard == 0 {
                 witness::run_witnesses("C12");
